@@ -5,7 +5,7 @@ from .stagefam import run_family
 
 def main(argv):
     return run_family(
-        "C17", "C17", argv, "XRBS",
+        "C17", "C17", argv, "XRBSM",
         nontrivial=lambda s: s["nblocks"] > s["n"] + 1,
         rule="after every stage of every behaviour the generated DOT source is parsed (harness/dot.py) into nodes, cluster tree, solid/dashed edges and "
              "label facts, and TLC checks them against the hierarchy (nodes = non-region blocks, clusters = region tree, edges resolved to innermost "
